@@ -22,6 +22,8 @@ package limitscanner
 //@ func (s *LimitScanner) Scan
 //@   trusted
 //@   modifies ghost_scanEpoch, *s
+//@   at_call lmdbscan.(*Scanner).Set#0 assert resumes_at_the_last_entry_or_the_first_after_it: sameSlice(arg1, s.opt.Last.key) && sameSlice(arg2, s.opt.Last.val) && arg3 == lmdb.SetRange
+//@   at_call lmdbscan.(*Scanner).Set#1 assert steps_to_the_very_next_entry: isnil(arg1) && isnil(arg2) && arg3 == lmdb.Next
 //@   at_call lmdbscan.(*Scanner).Set#1 assert steps_over_the_unchanged_last_entry_only: seqEq(s.Key(), s.opt.Last.key) && seqEq(s.Val(), s.opt.Last.val)
 
 //@ func (s *LimitScanner) Cursor
